@@ -76,6 +76,10 @@ type bodyStream struct {
 	chunkLeft       int
 	// whether the chunk has reached the EOF
 	chunkEOF bool
+	// framingErr is the first error met while reading chunk framing (a chunk-size
+	// line, the CRLF behind a chunk, the trailer section): the reader may have
+	// stopped in the middle of such a line, skipRest cannot resume from there
+	framingErr error
 }
 
 func ReadBodyWithStreaming(zr network.Reader, contentLength, maxBodySize int, dst []byte) (b []byte, err error) {
@@ -118,6 +122,7 @@ func AcquireBodyStream(b *bytebufferpool.ByteBuffer, r network.Reader, t *protoc
 	rs.contentLength = contentLength
 	rs.trailer = t
 	rs.chunkEOF = false
+	rs.framingErr = nil
 
 	return rs
 }
@@ -132,10 +137,14 @@ func (rs *bodyStream) Read(p []byte) (int, error) {
 		if rs.chunkEOF {
 			return 0, io.EOF
 		}
+		if rs.framingErr != nil {
+			return 0, rs.framingErr
+		}
 
 		if rs.chunkLeft == 0 {
 			chunkSize, err := utils.ParseChunkSize(rs.reader)
 			if err != nil {
+				rs.framingErr = err
 				return 0, err
 			}
 			if chunkSize == 0 {
@@ -143,6 +152,8 @@ func (rs *bodyStream) Read(p []byte) (int, error) {
 				if err == nil {
 					rs.chunkEOF = true
 					err = io.EOF
+				} else {
+					rs.framingErr = err
 				}
 				return 0, err
 			}
@@ -171,6 +182,9 @@ func (rs *bodyStream) Read(p []byte) (int, error) {
 			err = utils.SkipCRLF(rs.reader)
 			if err == io.EOF {
 				err = io.ErrUnexpectedEOF
+			}
+			if err != nil {
+				rs.framingErr = err
 			}
 		}
 
@@ -251,6 +265,9 @@ func (rs *bodyStream) skipRest() error {
 	if rs.contentLength == -1 {
 		if rs.chunkEOF {
 			return nil
+		}
+		if rs.framingErr != nil {
+			return rs.framingErr
 		}
 
 		strCRLFLen := len(bytestr.StrCRLF)
@@ -396,4 +413,5 @@ func (rs *bodyStream) reset() {
 	rs.chunkEOF = false
 	rs.chunkLeft = 0
 	rs.contentLength = 0
+	rs.framingErr = nil
 }
